@@ -1,4 +1,5 @@
 """E2: per-function CFG path queries and branch-condition recovery."""
+import re
 from collections import deque
 
 from .facts import callee_name, const_name, const_int, is_place, op_str, place_str
@@ -254,12 +255,12 @@ def show_place(fn, pl, depth=0):
     if not sd:
         ds = fn.defs().get(base, [])
         # matches!()/&&/|| temporaries: several constant bool assignments, one per arm
-        if ds and not fn.locals[base]['name'] and fn.locals[base]['ty'] == 'bool' and not proj and all(
+        if ds and (not fn.locals[base]['name'] or (not _mut_borrowed(fn, base) and not any(d[0] in fn.reachable(fn.succs()[d[0]]) for d in ds))) and fn.locals[base]['ty'] == 'bool' and not proj and all(
                 d[2] == 'assign' and d[3]['rv']['k'] == 'use' and d[3]['rv']['op']['k'] == 'const' for d in ds):
             arms = []
             for d in ds:
                 if const_name(d[3]['rv']['op']) == 'true':
-                    arms.extend(direct_guards(fn, d[0], depth + 3) if depth < 6 else ['_'])
+                    arms.extend(direct_guards(fn, d[0], depth + 3, variants=False) if depth < 6 else ['_'])
             return 'true-when{%s}' % ' | '.join(sorted(arms))
         if ds and fn.locals[base]['name']:
             return 'var:%s%s' % (fn.locals[base]['ty'], proj)
@@ -329,6 +330,8 @@ def guard_variants(g):
         if body.startswith('Not(') and body.endswith(')'):
             out += guard_variants(body[4:-1] + (' in [0]' if truth else ' not in [0]'))
             break
+        if body.startswith('discr(') and not truth is None:
+            pass
         op = body[:2]
         if op in _NEG and body[2:3] == '(' and body.endswith(')'):
             ab = _split2(body[3:-1])
@@ -339,6 +342,10 @@ def guard_variants(g):
                 out.append('%s(%s,%s)%s' % (_SWAP[op], b, a, pol))
                 out.append('%s(%s,%s)%s' % (_NEG[_SWAP[op]], b, a, flip))
         break
+    m = re.match(r'^(discr\(.*\)) (not in|in) \[([01])\]$', g)
+    if m:
+        # for the two-variant enums the code branches on (Option, Result, ControlFlow) `== 0` is `!= 1`
+        out.append('%s %s [%d]' % (m.group(1), 'in' if m.group(2) == 'not in' else 'not in', 1 - int(m.group(3))))
     seen = []
     for x in out:
         if x not in seen:
@@ -386,3 +393,19 @@ def dom_guards(fn, b, variants=True):
         if e:
             out.append(e)
     return _expand(out) if variants else out
+
+
+def guards_equiv(got_raw, want):
+    """The raw guard list equals `want` up to spelling: every wanted condition is matched by some spelling of a guard,
+    and every guard is a spelling of some wanted condition."""
+    got_sets = [set(guard_variants(g)) for g in got_raw]
+    want_sets = [set(guard_variants(w)) for w in want]
+    return all(any(ws & gs for gs in got_sets) for ws in want_sets) and all(any(ws & gs for ws in want_sets) for gs in got_sets)
+
+
+class GuardList(list):
+    """A raw guard list whose membership test is spelling-insensitive (`x in guards` is true when some guard is an
+    equivalent spelling of x)."""
+    def __contains__(self, x):
+        xs = set(guard_variants(x))
+        return any(xs & set(guard_variants(g)) for g in list.__iter__(self))
